@@ -45,6 +45,13 @@ def convertFrom (conv : α → Option β) : Nat → List α → List β → Exce
     | some b => convertFrom conv (i + 1) r (b :: acc)
     | none => .error i
 
+/-- The element converters (`PyInt_AsLong`, `PyFloat_AsDouble`, ...) accept by the *type* of the item; its value
+(payload) passes through unchanged and plays no part - in particular -1, 0 and the extremes, which the C functions
+also use as error returns, convert like every other value (the helpers ask `PyErr_Occurred()`). An item is a
+(class tag, payload) pair. -/
+def classConv (accepts : List Nat) (v : Nat × Nat) : Option Nat :=
+  if accepts.contains v.1 then some v.2 else none
+
 /-- `get_from_object_<T>_list`. -/
 def getFromObjectList (conv : α → Option β) : Obj α → Out β
   | .atom _ => .typeError .notIterable ⟨0, 0, 0⟩                    -- PySequence_Fast failed, nothing allocated
